@@ -112,7 +112,9 @@ def standin(rep: Report):
             srcs.append(c.format(s))
     srcs += ["$X = 1\n", "${'x'} = 2\n", "for $I in y: pass\n", "with a as $B: pass\n", "x = [$A for $A in y]\n", "$X, y = 1, 2\n", "($X) = 1\n", "*$R, x = [1, 2]\n",
              "(a.b) = 1\n", "del (a.b), (c[0])\n", "*a.b, c = x\n", "x = (a[i]) * 2\n", "x = *a[i], b\n", "() = x\n", "[] = x\n", "del ()\n", "def f(*a: *b): pass\n",
-             "match x:\n    case [_, *_]: pass\n    case {**r}: pass\n", "with! a:\n    b c\n", "with! a as b: x y\n"]
+             "match x:\n    case [_, *_]: pass\n    case {**r}: pass\n", "with! a:\n    b c\n", "with! a as b: x y\n",
+             # with-macro bodies without any statement token / ending in comments and blank lines (round-5 seed C04e: span of the captured body)
+             "with! a:\n    # only a comment\n", "with! a as b:\n    # c\n\n    # d\n", "with! a:\n    x y\n    # trailing\n", "with! a:\n    # only a comment"]
     # constructs continued on a later line inside brackets (spans cross lines; columns of the two lines are unrelated)
     sugar_ml = ["a?\n  .b?", "a??\n .b?\n .c??", "$(ls\n        -l)", "![echo $H\n         /tmp]", "f!(x,\n y)", "${'a' +\n b}", "(a &&\n b)", "!(ls\n)", "g`a*`\n"]
     for c in ["result = ({0})\n", "print('look it up:', {0})\n", "r = [1, 2, some.where, {0}\n]\n", "x = {{'k':\n {0}}}\n"]:
